@@ -1,7 +1,131 @@
 import Driver.Common
-open Drv
+import KatdalModel.Model.Select
+open Np Index Drv Select
 
-/-- stub driver for C03: replaced when the property's model lands -/
-def step (_line : String) : String := "bad-op"
+namespace D02
 
-def main : IO Unit := Drv.loop step
+def parseNatListD (s : String) : List Nat := (parseNatList s).getD []
+def parseIntListD (s : String) : List Int := (parseIntList s).getD []
+
+/-- `a.p` -/
+def parseInp (s : String) : Option (Nat × Nat) :=
+  match s.splitOn "." with
+  | [a, p] => do let a ← a.toNat?; let p ← p.toNat?; pure (a, p)
+  | _ => none
+
+def parseInpList (s : String) : Option (List (Nat × Nat)) :=
+  if s = "" then some [] else (s.splitOn ",").mapM parseInp
+
+def parseCtx (fields : List String) : Option Ctx :=
+  match fields with
+  | [nT, nF, nB, ts, half, ss, si, lb, ci, ti, tags, fr, hw, cpa, cpb] => do
+    let nT ← nT.toNat?; let nF ← nF.toNat?; let nB ← nB.toNat?
+    let half ← half.toInt?; let hw ← hw.toInt?
+    let cpA ← parseInpList cpa; let cpB ← parseInpList cpb
+    let tagl : List (List Nat) := if tags = "" then [] else (tags.splitOn ";").map parseNatListD
+    pure { nT := nT, nF := nF, nB := nB, ts := parseIntListD ts, half := half,
+           scanState := parseNatListD ss, scanIdx := parseNatListD si, label := parseNatListD lb,
+           csIdx := parseNatListD ci, tgtIdx := parseNatListD ti, tgtTags := tagl,
+           freqs := parseIntListD fr, halfw := hw, cpA := cpA, cpB := cpB }
+  | _ => none
+
+def parseScanItem (s : String) : Option ScanItem :=
+  match s.toList with
+  | 'i' :: r => (String.ofList r).toInt?.map ScanItem.idx
+  | 'n' :: r => (String.ofList r).toNat?.map ScanItem.name
+  | 'x' :: r => (String.ofList r).toNat?.map ScanItem.notName
+  | _ => none
+
+def parseItems {α} (f : String → Option α) (s : String) : Option (List α) :=
+  if s = "" then some [] else (s.splitOn ",").mapM f
+
+def parseKey (s : String) : Option Key :=
+  match s with
+  | "dumps" => some .dumps | "timerange" => some .timerange | "scans" => some .scans
+  | "compscans" => some .compscans | "targets" => some .targets | "target_tags" => some .targetTags
+  | "channels" => some .channels | "freqrange" => some .freqrange | "corrprods" => some .corrprods
+  | "ants" => some .ants | "inputs" => some .inputs | "pol" => some .pol
+  | _ => none
+
+def parsePair (s : String) : Option ((Nat × Nat) × (Nat × Nat)) :=
+  match s.splitOn "-" with
+  | [a, b] => do let a ← parseInp a; let b ← parseInp b; pure (a, b)
+  | _ => none
+
+def parseVal (k : Key) (v : String) : Option Val :=
+  match k with
+  | .dumps | .channels => (parseIx v).map Val.index
+  | .timerange | .freqrange =>
+    match v.splitOn "," with
+    | [a, b] => do let a ← a.toInt?; let b ← b.toInt?; pure (Val.range a b)
+    | _ => none
+  | .scans | .compscans => (parseItems parseScanItem v).map Val.scans
+  | .targets => (parseIntList v).map Val.targets
+  | .targetTags => (parseNatList v).map Val.tags
+  | .corrprods =>
+    if v = "auto" then some .cpAuto else if v = "cross" then some .cpCross
+    else if v.startsWith "p:" then (parseItems parsePair (v.drop 2).toString).map Val.cpPairs
+    else (parseIx v).map Val.index
+  | .ants => (parseItems (fun s => match s.toList with
+      | 't' :: r => (String.ofList r).toNat?.map fun n => (true, n)
+      | 'n' :: r => (String.ofList r).toNat?.map fun n => (false, n)
+      | _ => none) v).map Val.ants
+  | .inputs => (parseInpList v).map Val.inputs
+  | .pol =>
+    let items := if v = "" then [] else v.splitOn ","
+    (items.mapM fun (it : String) => it.toList.mapM fun c =>
+      if c = '0' then some 0 else if c = '1' then some 1 else if c = '2' then some 2 else none).map Val.pol
+
+def parseReset (s : String) : Option Reset :=
+  if s = "auto" then some .auto
+  else if s = "-" then some (.explicit [])
+  else (s.toList.mapM fun c => if c = 'T' then some Dim.T else if c = 'F' then some Dim.F
+        else if c = 'B' then some Dim.B else none).map Reset.explicit
+
+def parseKw (s : String) : Option (Key × Val) :=
+  match s.splitOn "=" with
+  | k :: rest => do
+    let key ← parseKey k
+    let v ← parseVal key ("=".intercalate rest)
+    pure (key, v)
+  | _ => none
+
+def showMasks (m : Masks) : String := s!"T={showMask m.t} F={showMask m.f} B={showMask m.b}"
+
+structure DS where
+  ctx : Ctx
+  st : St
+  spec : Masks      -- the dict-free specification machine, run alongside
+
+def step (s : DS) (line : String) : DS × String :=
+  match line.splitOn " " with
+  | "ctx" :: fields =>
+    match parseCtx (" ".intercalate fields |>.splitOn "|") with
+    | some c => ({ ctx := c, st := init (baseMasks c), spec := baseMasks c }, "ok")
+    | none => (s, "bad-op")
+  | "sel" :: reset :: bare :: kws =>
+    match parseReset reset, kws.mapM parseKw with
+    | some r, some kws =>
+      let raw : RawCall := { kws := kws, reset := r, bare := bare = "1" }
+      match evalCall s.ctx raw with
+      | .error e => (s, showErr e)
+      | .ok call =>
+        let st' := select (baseMasks s.ctx) s.st call
+        let sp' := specStep (baseMasks s.ctx) s.spec call
+        ({ s with st := st', spec := sp' },
+          s!"{showMasks st'.masks} | spec {showMasks sp'} | keys {st'.sel.length}")
+    | _, _ => (s, "bad-op")
+  | ["iter", which] =>
+    let (key, idx) := if which = "scans" then (Key.scans, s.ctx.scanIdx) else (Key.compscans, s.ctx.csIdx)
+    let base := baseMasks s.ctx
+    let items := selectedIndices idx s.st.masks.t
+    let during := items.map fun i => s!"{i}:{showMask (duringItem base s.st key idx i).masks.t}"
+    let after := afterIteration base s.st
+    ({ s with st := after, spec := after.masks },
+      (if during.isEmpty then "-" else ";".intercalate during) ++ " | after " ++ showMasks after.masks)
+  | _ => (s, "bad-op")
+
+end D02
+
+def main : IO Unit :=
+  Drv.loopState ({ ctx := default, st := default, spec := default } : D02.DS) D02.step
